@@ -123,3 +123,171 @@ Example C13_example_fast :
       (map snd (fast_trace F64num (fact []) fn (fast_run F64num (fact []) fn (fast_init F64num fn) ex_hist) ex_ops))
       (map snd (fast_trace F64num (fact []) fn (fast_init F64num fn) ex_ops)) = false.
 Proof. eexists. split; [vm_compute; reflexivity|]. vm_compute. reflexivity. Qed.
+(* ================================================================================================== *)
+(* agent-modules: networks WITH control nodes (modules).                                               *)
+(* Models: model/NetMod.v (Network.ActivateSteps incl. the control-node loop, ActivateModule),          *)
+(* model/FastMod.v (forwardStep incl. the module loop; FastNetworkSolver's translation of control nodes);*)
+(* proofs: proofs/ModSpecStd.v, ModSpecFast.v, ModSpecBuild.v; correspondence: cases/ModCases.v          *)
+(* (harness/c13_mod.go).  [mact] is NodeActivators.ActivateModuleByType, any table; error paths          *)
+(* (unknown module type, wrong number of outgoing links, RecursiveSteps on a modular network) are        *)
+(* explicit results and are covered by the statements: "same results" includes the same errors.          *)
+(* ================================================================================================== *)
+From NeatModel Require Import NetMod FastMod ModSpecStd ModSpecFast ModSpecBuild Act ModCases.
+
+(* conservativity: without control nodes the extended models are the models above, operation by operation, so
+   every theorem above transfers *)
+Theorem C13_mod_std_conservative :
+  forall (F : Type) (NF : num F) (act : Z -> F -> res F) (mact : Z -> list F -> res (list F))
+         (n : net F) (ops : list (op F)),
+    mstd_trace NF act mact (mkMnet n []) (mstd_init NF (mkMnet n [])) ops = std_trace NF act n (std_init NF n) ops.
+Proof. exact mstd_conservative. Qed.
+Print Assumptions C13_mod_std_conservative.
+
+Theorem C13_mod_fast_conservative :
+  forall (F : Type) (NF : num F) (act : Z -> F -> res F) (mact : Z -> list F -> res (list F))
+         (n : net F) (fn : fnet F) (ops : list (op F)),
+    fast_of_net NF n = Ok fn ->
+    fast_of_net_mod NF (mkMnet n []) = Ok (mkFmnet fn []) /\
+    mfast_trace NF act mact (mkFmnet fn []) (mfast_init NF (mkFmnet fn [])) ops = fast_trace NF act fn (fast_init NF fn) ops.
+Proof. exact mfast_conservative. Qed.
+Print Assumptions C13_mod_fast_conservative.
+
+(* Network with control nodes, any topology, any modules: after Flush every later sequence of operations gives the
+   results and outputs it gives on a fresh Network *)
+Theorem C13_mod_std_flush_fresh :
+  forall (F : Type) (NF : num F) (act : Z -> F -> res F) (mact : Z -> list F -> res (list F)),
+    fltb NF (fzero NF) (fzero NF) = false ->
+    forall (n : mnet F) (h ops : list (op F)),
+      mstd_trace NF act mact n (fst (mstd_flush NF n (mstd_run NF act mact n (mstd_init NF n) h))) ops =
+      mstd_trace NF act mact n (mstd_init NF n) ops.
+Proof. exact mstd_flush_fresh. Qed.
+Print Assumptions C13_mod_std_flush_fresh.
+
+Theorem C13_mod_std_flush_ok :
+  forall (F : Type) (NF : num F),
+    fltb NF (fzero NF) (fzero NF) = false ->
+    forall (n : mnet F) (st : mstate F), snd (mstd_flush NF n st) = Ok true.
+Proof. exact mstd_flush_ok. Qed.
+Print Assumptions C13_mod_std_flush_ok.
+
+(* ... although Flush does not visit the control nodes: their isActive flags stay as they were (only NNode.String
+   shows them; no solver operation reads them, which is why the theorem above holds) *)
+Theorem C13_mod_std_flush_keeps_control_flags :
+  forall (F : Type) (NF : num F) (n : mnet F) (st : mstate F), ms_con (fst (mstd_flush NF n st)) = ms_con st.
+Proof. exact mstd_flush_keeps_control_flags. Qed.
+Print Assumptions C13_mod_std_flush_keeps_control_flags.
+
+Theorem C13_mod_std_flush_fresh_float :
+  forall (t : table) (n : mnet float) (h ops : list (op float)),
+    mstd_trace F64num (fact t) fmact n (fst (mstd_flush F64num n (mstd_run F64num (fact t) fmact n (mstd_init F64num n) h))) ops =
+    mstd_trace F64num (fact t) fmact n (mstd_init F64num n) ops.
+Proof. intros t. exact (mstd_flush_fresh float F64num (fact t) fmact eq_refl). Qed.
+Print Assumptions C13_mod_std_flush_fresh_float.
+
+(* fast solver with modules.  Flush clears neuronSignals / neuronSignalsBeingProcessed from biasNeuronCount on.  The
+   premise says that no module reads a slot below biasNeuronCount that a connection or a module writes; it cannot be
+   dropped (C13_mod_example_bias_slot below: a module that writes a bias node). *)
+Theorem C13_mod_fast_flush_fresh :
+  forall (F : Type) (NF : num F) (act : Z -> F -> res F) (mact : Z -> list F -> res (list F)) (fx : fmnet F),
+    (f_sensor (fx_net fx) <= f_total (fx_net fx))%nat ->
+    (forall m j, In m (fx_mods fx) -> In j (fmd_ins m) -> (j < f_bias (fx_net fx))%nat ->
+       (forall c, In c (f_conns (fx_net fx)) -> fl_tgt c <> j) /\ (forall m', In m' (fx_mods fx) -> ~ In j (fmd_outs m'))) ->
+    forall (h ops : list (op F)),
+      mfast_trace NF act mact fx (fst (fast_flush NF (fx_net fx) (mfast_run NF act mact fx (mfast_init NF fx) h))) ops =
+      mfast_trace NF act mact fx (mfast_init NF fx) ops.
+Proof.
+  intros F NF act mact fx HS HF. exact (mfast_flush_fresh F NF act mact fx HS (proj2 (flush_ok_iff F fx HS) HF)).
+Qed.
+Print Assumptions C13_mod_fast_flush_fresh.
+
+(* in particular for every fast solver that Network.FastNetworkSolver builds from a network with control nodes, none
+   of which has an outgoing link into a bias node *)
+Theorem C13_mod_fast_flush_fresh_built :
+  forall (F : Type) (NF : num F) (act : Z -> F -> res F) (mact : Z -> list F -> res (list F)) (n : mnet F) (fx : fmnet F),
+    fast_of_net_mod NF n = Ok fx ->
+    (forall c p, In c (m_ctrl n) -> In p (cn_out c) -> is_bias (role_at (m_net n) p) = false) ->
+    forall (h ops : list (op F)),
+      mfast_trace NF act mact fx (fst (fast_flush NF (fx_net fx) (mfast_run NF act mact fx (mfast_init NF fx) h))) ops =
+      mfast_trace NF act mact fx (mfast_init NF fx) ops.
+Proof.
+  intros F NF act mact n fx H Hout.
+  exact (mfast_flush_fresh F NF act mact fx (fast_of_net_mod_sensor_le F NF n fx H) (fast_of_net_mod_flush_ok F NF n fx H Hout)).
+Qed.
+Print Assumptions C13_mod_fast_flush_fresh_built.
+
+(* the observational equivalences behind the two theorems *)
+Theorem C13_mod_std_step_respects :
+  forall (F : Type) (NF : num F) (act : Z -> F -> res F) (mact : Z -> list F -> res (list F)) (n : mnet F) (o : op F)
+         (st1 st2 : mstate F),
+    seqv F NF (ms_s st1) (ms_s st2) ->
+    seqv F NF (ms_s (fst (mstd_step NF act mact n st1 o))) (ms_s (fst (mstd_step NF act mact n st2 o))) /\
+    snd (mstd_step NF act mact n st1 o) = snd (mstd_step NF act mact n st2 o).
+Proof. exact mstd_step_respects. Qed.
+Print Assumptions C13_mod_std_step_respects.
+
+(* non-vacuity: inputs 0 and 1, bias 2, hidden 3 and 4, a MULTIPLY module (3, 4) -> relay 5, a MAX module (5, 3) ->
+   relay 6 (a module fed by a module), output 7 <- 5, 6.  Without the Flush the later outputs differ from a fresh
+   network's, with it they coincide (theorems above); the values are the ones the real code returns *)
+Definition exm_net : mnet float :=
+  mkMnet (mkNet [mkNode Input 17 []; mkNode Input 17 []; mkNode Bias 17 [];
+                 mkNode Hidden 14 [mkLink 0%nat 2%float false; mkLink 2%nat 0.5%float false];
+                 mkNode Hidden 14 [mkLink 1%nat 1%float false; mkLink 2%nat 1%float false];
+                 mkNode Hidden 17 []; mkNode Hidden 17 [];
+                 mkNode Output 14 [mkLink 5%nat 1.5%float false; mkLink 6%nat 1%float false]]
+                [0%nat; 1%nat; 2%nat] [7%nat])
+         [mkCnode 21 [3%nat; 4%nat] [5%nat]; mkCnode 22 [5%nat; 3%nat] [6%nat]].
+Definition exm_hist : list (op float) := [OLoad [2%float; 3%float]; OForward 3].
+Definition exm_ops : list (op float) := [OLoad [1%float; 1%float]; OForward 1; OForward 1].
+
+Example C13_mod_example_std :
+  mstd_trace F64num (fact []) fmact exm_net (mstd_init F64num exm_net) exm_hist
+    = [(Ok true, [0%float]); (Ok true, [45%float])]
+  /\ list_eqb (list_eqb feqb_exact)
+       (map snd (mstd_trace F64num (fact []) fmact exm_net (mstd_run F64num (fact []) fmact exm_net (mstd_init F64num exm_net) exm_hist) exm_ops))
+       (map snd (mstd_trace F64num (fact []) fmact exm_net (mstd_init F64num exm_net) exm_ops)) = false
+  /\ ms_con (fst (mstd_flush F64num exm_net (mstd_run F64num (fact []) fmact exm_net (mstd_init F64num exm_net) exm_hist))) = [true; true].
+Proof. vm_compute. repeat split; reflexivity. Qed.
+
+Example C13_mod_example_fast :
+  exists fx, fast_of_net_mod F64num exm_net = Ok fx /\ flush_ok float fx = true /\
+    mod_static_of fx = [(21, [4%nat; 5%nat], [6%nat]); (22, [6%nat; 4%nat], [7%nat])] /\
+    map snd (mfast_trace F64num (fact []) fmact fx (mfast_init F64num fx) exm_hist) = [[0%float]; [45%float]] /\
+    list_eqb (list_eqb feqb_exact)
+      (map snd (mfast_trace F64num (fact []) fmact fx (mfast_run F64num (fact []) fmact fx (mfast_init F64num fx) exm_hist) exm_ops))
+      (map snd (mfast_trace F64num (fact []) fmact fx (mfast_init F64num fx) exm_ops)) = false.
+Proof. eexists. split; [vm_compute; reflexivity|]. vm_compute. repeat split; reflexivity. Qed.
+
+(* the premise of C13_mod_fast_flush_fresh cannot be dropped.  Input 0, bias 1, relay 2, output 3 <- 2, hidden 4 <- 0;
+   modules MULTIPLY (bias 1) -> 2 and then MULTIPLY (4) -> bias 1.  The second module writes slot 0 of
+   neuronSignalsBeingProcessed (the bias neuron's), which Flush does not clear and the first module reads: after
+   Load [7]; Forward 1; Forward 1; Flush the sequence Load [7]; Forward 1; Forward 1 returns 0, 7 where a fresh solver
+   returns 0, 0.  The real fast solver does exactly this (harness/c13_mod.go, family bias-slot); the Network does not. *)
+Definition exm_bias_slot : mnet float :=
+  mkMnet (mkNet [mkNode Input 17 []; mkNode Bias 17 []; mkNode Hidden 17 [];
+                 mkNode Output 14 [mkLink 2%nat 1%float false]; mkNode Hidden 14 [mkLink 0%nat 1%float false]]
+                [0%nat; 1%nat] [3%nat])
+         [mkCnode 21 [1%nat] [2%nat]; mkCnode 21 [4%nat] [1%nat]].
+
+Example C13_mod_example_bias_slot :
+  exists fx, fast_of_net_mod F64num exm_bias_slot = Ok fx /\ flush_ok float fx = false /\
+    let h := [OLoad [7%float]; OForward 1; OForward 1] in
+    map snd (mfast_trace F64num (fact []) fmact fx (fst (fast_flush F64num (fx_net fx) (mfast_run F64num (fact []) fmact fx (mfast_init F64num fx) h))) h)
+      = [[0%float]; [0%float]; [7%float]] /\
+    map snd (mfast_trace F64num (fact []) fmact fx (mfast_init F64num fx) h) = [[0%float]; [0%float]; [0%float]].
+Proof. eexists. split; [vm_compute; reflexivity|]. vm_compute. repeat split; reflexivity. Qed.
+
+(* the modular Network's own entry points, Activate() = ActivateSteps(20) and ActivateSteps(k), among the operations
+   (before and after the Flush): [NOp o] is an operation of the Solver interface, [NActivate k] is ActivateSteps(k) *)
+Theorem C13_mod_std_flush_fresh_activate :
+  forall (F : Type) (NF : num F) (act : Z -> F -> res F) (mact : Z -> list F -> res (list F)),
+    fltb NF (fzero NF) (fzero NF) = false ->
+    forall (n : mnet F) (h ops : list (nop F)),
+      mstd_ntrace NF act mact n (fst (mstd_flush NF n (mstd_nrun NF act mact n (mstd_init NF n) h))) ops =
+      mstd_ntrace NF act mact n (mstd_init NF n) ops.
+Proof. exact mstd_flush_fresh_n. Qed.
+Print Assumptions C13_mod_std_flush_fresh_activate.
+
+Example C13_mod_example_activate :
+  mstd_ntrace F64num (fact []) fmact exm_net (mstd_init F64num exm_net) [NOp (OLoad [2%float; 3%float]); NActivate 20; NActivate 1]
+    = [(Ok true, [0%float]); (Ok true, [45%float]); (Ok true, [45%float])].
+Proof. vm_compute. reflexivity. Qed.
